@@ -408,6 +408,8 @@ type Loc struct {
 	Val   Val
 	Guard *Term // the base pointer is non-nil (nil: unconditional)
 	Keys  []string // Kind "key": whole heap keys (type-level frame T.f)
+	Spare bool     // Kind "elems": the spare capacity [len, cap) instead of the elements [0, len)
+	Exact bool     // Kind "elems": onlyelems(s)/onlyspare(s) of a trusted contract: nothing outside that index range changes
 }
 
 func (fx *fnExec) havocLoc(st *State, loc Loc) {
@@ -435,7 +437,20 @@ func (fx *fnExec) havocLoc(st *State, loc Loc) {
 			key := elemKey(et, k)
 			rowS := ArraySort(BV64, srt)
 			h := st.heapGet(key, ArraySort(IntSort, rowS))
-			st.heapSet(key, Store(h, s.C[0], Fresh("modrow", rowS)))
+			oldRow := Select(h, s.C[0])
+			newRow := Fresh("modrow", rowS)
+			st.heapSet(key, Store(h, s.C[0], newRow))
+			// elems(s)/spare(s): the whole backing array may change (what the callee-side frame check
+			// allows); onlyelems(s)/onlyspare(s) (trusted contracts only): just [off, off+len) resp.
+			// [off+len, off+cap)
+			if loc.Exact {
+				lo, hi := s.C[1], BVAdd(s.C[1], s.C[2])
+				if loc.Spare {
+					lo, hi = BVAdd(s.C[1], s.C[2]), BVAdd(s.C[1], s.C[3])
+				}
+				i := Fresh("qi", BV64)
+				ex.assume(st, Forall([]*Term{i}, Implies(Or(BVSlt(i, lo), BVSle(hi, i)), Eq(Select(newRow, i), Select(oldRow, i))), Select(newRow, i)))
+			}
 		}
 	case "key":
 		// whole heap key(s) of a struct type field: modifies T.f (any object)
@@ -510,7 +525,7 @@ func (fx *fnExec) callSiteHooks(callee *ssa.Function, args []Val, st *State, pos
 		if !ok {
 			cur = BVI(0, 64)
 		}
-		st.Ghost[g.Name] = BVAdd(cur, dt)
+		st.Ghost[g.Name] = fx.ghostAdd(st, cur, dt)
 	}
 }
 
